@@ -29,7 +29,8 @@ RULE = ("one run = one seeded schema (structs over u/i 1..64, f32, f64, str, fix
         "nested structs, depth <= 3) x several in-range values; every valid message (gate: the real decoder returns the "
         "intended value for the complete bytes) is delivered through cut(k) for EVERY byte boundary 0 <= k < n, "
         "inflate(p, L) for every length prefix p and L in {len+1, len+255, 2^16, 2^31, 2^32-1} (alone and followed by a cut), "
-        "and flag_set for every absent optional; evaluations = faulted deliveries judged; distinct_nontrivial counts distinct "
+        "flag_set for every absent optional, and single flipped bits (every bit of one prefix plus four anywhere) when "
+        "the reference decoder says the result announces more than is there; evaluations = faulted deliveries judged; distinct_nontrivial counts distinct "
         "(type-tree signature, fault kind, kind of wire element the fault lands in) triples where the fault lands in or "
         "before a variable-size payload (string/dynamic-array payload or prefix, optional)")
 COMPONENTS = {
@@ -44,13 +45,23 @@ ASSUMPTIONS = [
     "struct fields are declared in ascending id (declaration order vs id order is C15's business)",
 ]
 TIERS = {
-    "quick": {"runs": 960, "chunk": 12, "wall": 110, "chunk_timeout": 300, "selftest": 6, "values": 4},
+    "quick": {"runs": 800, "chunk": 10, "wall": 110, "chunk_timeout": 300, "selftest": 6, "values": 4},
     "thorough": {"runs": 12000, "chunk": 30, "wall": 800, "chunk_timeout": 600, "selftest": 8, "values": 6},
 }
+ISOLATE_RUNS = True
+
+
+def preload():
+    setup_repo_path()
+    import importlib
+    for m in ("fcp.parser", "fcp.error", "fcp.serde"):
+        importlib.import_module(m)
+
+
 EXPECTED_PROBES = {
-    "quick": ["cut_in_str_payload", "cut_in_last_str_payload", "inflate_str", "inflate_dyn", "cut_in_float", "flag_set",
+    "quick": ["cut_in_str_payload", "cut_in_last_str_payload", "inflate_str", "inflate_dyn", "cut_in_float", "flag_set", "flip_made_message_short",
               "str_at_unaligned_offset", "vectors_checked"],
-    "thorough": ["cut_in_str_payload", "cut_in_last_str_payload", "inflate_str", "inflate_dyn", "cut_in_float", "flag_set",
+    "thorough": ["cut_in_str_payload", "cut_in_last_str_payload", "inflate_str", "inflate_dyn", "cut_in_float", "flag_set", "flip_made_message_short",
                  "str_at_unaligned_offset", "vectors_checked"],
 }
 PAGE = os.sysconf("SC_PAGE_SIZE")
@@ -482,6 +493,9 @@ def apply_fault(data: bytes, fault):
     if fault[0] == "inflate":
         _, bit, L, cut = fault
         v = (v & ~(((1 << 32) - 1) << bit)) | (L << bit)
+    elif fault[0] == "flip":          # one flipped bit (inside a length prefix or anywhere in the image)
+        _, bit, cut = fault
+        v ^= 1 << bit
     else:
         _, bit, cut = fault
         v = (v & ~(0xFF << bit)) | (1 << bit)
@@ -592,6 +606,14 @@ def run_one(seed: int, index: int, tier: str) -> dict:
             for bit, fv in flags:
                 if fv == 0:
                     flist.append(["flag_set", bit, None])
+            # single flipped bits: every bit of up to two length prefixes, plus a few anywhere in the image;
+            # only those the reference decoder classifies as "announces more than is there" are judged
+            for bit, ln, kind in (prefixes if len(prefixes) <= 1 else rf.sample(prefixes, 1)):
+                for b in range(32):
+                    flist.append(["flip", bit + b, None])
+            if spans:
+                for _ in range(4):
+                    flist.append(["flip", rf.randrange(8 * n), None])
             outcomes = []
             nv = 0
             for fault in flist:
@@ -617,6 +639,8 @@ def run_one(seed: int, index: int, tier: str) -> dict:
                     probes["inflate_str" if landing(spans, fault[1]) == "str_prefix" else "inflate_dyn"] += 1
                 elif fault[0] == "flag_set":
                     probes["flag_set"] += 1
+                elif fault[0] == "flip":
+                    probes["flip_made_message_short"] += 1
                 if v is not None:
                     nv += 1
                     cls, land, msg = v
